@@ -25,6 +25,8 @@ type C12Case struct {
 	Pre         [][]byte `json:"pre"`
 	Post        [][]byte `json:"post,omitempty"`        // files added after the parsed one
 	ReaderFirst bool     `json:"readerFirst,omitempty"` // the reader is created before the file is added to the set
+	Touch       bool     `json:"touch,omitempty"`       // positions of the surrounding files are looked up on the set before and between the renderings
+	Reuse       bool     `json:"reuse,omitempty"`       // file and reader were already used for a parse (file alone in a set) before the file is placed
 	HugePre     int      `json:"hugePre,omitempty"`     // > 0: additionally a first file of that many bytes (positions beyond 16 bits)
 	G           *Grammar `json:"g,omitempty"`           // workload "grammar": a generated grammar
 	Toks        *C10Case `json:"toks,omitempty"`        // workload "tokens": a generated C10 token sequence (In is its source)
@@ -142,6 +144,8 @@ func genC12(t *rapid.T) interface{} {
 		c.Pre = append(c.Pre, genContent(t, "p", 6))
 	}
 	c.ReaderFirst = rapid.IntRange(0, 2).Draw(t, "readerFirst") == 0
+	c.Touch = rapid.Bool().Draw(t, "touch")
+	c.Reuse = rapid.IntRange(0, 3).Draw(t, "reuse") == 0
 	if rapid.IntRange(0, 7).Draw(t, "huge") == 3 {
 		c.HugePre = rapid.SampledFrom([]int{65530, 65535, 65536, 70000, 131072, 200000}).Draw(t, "hugeLen")
 	}
@@ -158,7 +162,7 @@ type c12Out struct {
 	Base                 int
 }
 
-func runC12(c *C12Case, pre, post [][]byte, readerFirst bool) (o c12Out, err error) {
+func runC12(c *C12Case, pre, post [][]byte, readerFirst, touch, reuse bool) (o c12Out, err error) {
 	defer func() {
 		if r := recover(); r != nil {
 			if _, ok := r.(budgetExceeded); ok {
@@ -177,8 +181,29 @@ func runC12(c *C12Case, pre, post [][]byte, readerFirst bool) (o c12Out, err err
 	}
 	f := text.NewFile("main", content)
 	var early *text.Reader
-	if readerFirst {
+	if readerFirst || reuse {
 		early = text.NewReader(f) // e.g. examples/json benchmarks create the reader first
+	}
+	if reuse && c.Workload != "literal" {
+		// file and reader have a history: a complete parse and evaluation with the file alone in
+		// another set
+		fs0 := parsley.NewFileSet(f)
+		var p0 parsley.Parser
+		switch c.Workload {
+		case "tokens":
+			parsers := make([]parsley.Parser, len(c.Toks.Toks))
+			for i, ts := range c.Toks.Toks {
+				parsers[i] = tokParser(ts)
+			}
+			p0 = combinator.Sentence(combinator.SeqOf(parsers...).Bind(interpreter.Nil()))
+		case "grammar":
+			pr := NewProbe()
+			pr.Bound = false
+			p0 = combinator.Sentence(Build(c.G, BuildOpts{Probe: pr, Interp: concatInterp(true)}).NT[0])
+		default:
+			p0 = c12Workloads[c.Workload]
+		}
+		_, _ = parsley.Evaluate(parsley.NewContext(fs0, early), p0)
 	}
 	newReader := func() *text.Reader {
 		if early != nil {
@@ -194,6 +219,12 @@ func runC12(c *C12Case, pre, post [][]byte, readerFirst bool) (o c12Out, err err
 	// file set must not depend on it
 	fl = append(make([]parsley.File, 0, len(fl)+3), fl...)
 	fs := parsley.NewFileSet(fl...)
+	var others []parsley.Pos
+	for _, g := range fl {
+		if g != parsley.File(f) {
+			others = append(others, g.Pos(0), g.Pos(g.Len()))
+		}
+	}
 	if len(fl) > 1 {
 		// (not for the file alone: the baseline must be what it is)
 		decoy := text.NewFile("decoy", []byte("decoy\ncontent\n"))
@@ -203,6 +234,17 @@ func runC12(c *C12Case, pre, post [][]byte, readerFirst bool) (o c12Out, err err
 		_ = append(fl, decoy)
 	}
 	o.Base = int(f.Pos(0))
+	// lookups of the other files' positions on the shared set, interleaved with the renderings of
+	// this file's positions (earlier file first, then rotating)
+	tcount := 0
+	touchOther := func() {
+		if !touch || len(others) == 0 {
+			return
+		}
+		_ = fs.Position(others[tcount%len(others)]).String()
+		tcount++
+	}
+	touchOther()
 	var p parsley.Parser
 	var probe *Probe
 	if c.Workload == "literal" {
@@ -214,6 +256,7 @@ func runC12(c *C12Case, pre, post [][]byte, readerFirst bool) (o c12Out, err err
 				n, _, perr := e.p.Parse(ctx, data.EmptyIntMap, f.Pos(off))
 				fmt.Fprintf(&sb, "%s@%d: %s", e.name, off, renderRel(n, o.Base))
 				if perr != nil {
+					touchOther()
 					fmt.Fprintf(&sb, " error %q at %d rendered %s", perr.Error(), int(perr.Pos())-o.Base, fs.Position(perr.Pos()))
 				}
 				sb.WriteString("\n")
@@ -237,12 +280,16 @@ func runC12(c *C12Case, pre, post [][]byte, readerFirst bool) (o c12Out, err err
 		p = c12Workloads[c.Workload]
 	}
 	ctx := parsley.NewContext(fs, newReader())
+	touchOther()
 	node, perr := parsley.Parse(ctx, p)
 	o.Tree = renderRel(node, o.Base)
 	o.ParseErr = fmt.Sprint(perr)
 	if node != nil {
 		// the rendered location of the root must be the same wherever the file sits
-		o.ParseErr += " root at " + fs.Position(node.Pos()).String() + " .. " + fs.Position(node.ReaderPos()).String()
+		touchOther()
+		o.ParseErr += " root at " + fs.Position(node.Pos()).String()
+		touchOther()
+		o.ParseErr += " .. " + fs.Position(node.ReaderPos()).String()
 	}
 	o.Calls = ctx.CallCount()
 	if node != nil {
@@ -256,6 +303,7 @@ func runC12(c *C12Case, pre, post [][]byte, readerFirst bool) (o c12Out, err err
 		o.Tree += " all=" + RenderResult(n3, o.Base)
 	}
 	ctx2 := parsley.NewContext(fs, newReader())
+	touchOther()
 	v, eerr := parsley.Evaluate(ctx2, p)
 	o.Eval = fmt.Sprintf("%#v / %v", v, eerr)
 	return o, nil
@@ -280,7 +328,7 @@ func checkC12(ci interface{}, st *Stats) error {
 	} else if c12Workloads[c.Workload] == nil {
 		return Discard{"unknown workload"}
 	}
-	alone, err := runC12(c, nil, nil, false)
+	alone, err := runC12(c, nil, nil, false, false, false)
 	if err != nil {
 		return err
 	}
@@ -289,7 +337,7 @@ func checkC12(ci interface{}, st *Stats) error {
 		pre = append([][]byte{bytes.Repeat([]byte("x"), c.HugePre)}, pre...)
 		st.Class("preceded by more than 64 KiB")
 	}
-	placed, err := runC12(c, pre, c.Post, c.ReaderFirst)
+	placed, err := runC12(c, pre, c.Post, c.ReaderFirst, c.Touch, c.Reuse)
 	if err != nil {
 		return err
 	}
@@ -313,6 +361,12 @@ func checkC12(ci interface{}, st *Stats) error {
 		st.Class("call count differs with placement (recorded, not a violation)")
 	}
 	st.Class("workload " + c.Workload)
+	if c.Touch {
+		st.Class("positions of the other files looked up in between")
+	}
+	if c.Reuse {
+		st.Class("file and reader already used alone before placement")
+	}
 	if c.ReaderFirst {
 		st.Class("reader created before the file was placed")
 	}
